@@ -31,7 +31,9 @@ def install_uf_tracer(ctx, o, tag='', positive_intensity=False, calls=None, unit
             s = ctx.sqrt(1 + l * l + m * m)
             return {'L': l, 'M': m, 'N': 1.0}[q] / s
         v = ctx.uf(f'{tag}{q}{k}', Hx, Hy, Px, Py, w)
-        if q == 'intensity' and positive_intensity:
+        if q == 'intensity' and positive_intensity == 'strict':
+            v = 1 + v * v
+        elif q == 'intensity' and positive_intensity:
             v = v * v
         return v
 
